@@ -133,6 +133,13 @@ Definition handle_find_nodes_st (init_done : bool) (tab : table) (self : nrec) (
   if find_nodes_check_live false init_done then handle_find_nodes tab self rip shuf dists
   else Err E_SSZ.   (* unreachable: NoFindnodeLivenessCheck is false *)
 
+(* handleTalkRequest, FINDNODES case: the address handed to handleFindNodes is the source address of the packet (the addr
+   argument of the talk handler), not the endpoint the sender's record advertises (which may differ or be absent) *)
+Definition talk_source (packet_src enr_endpoint : N) : N := packet_src.
+Definition handle_talk_find_nodes (init_done : bool) (tab : table) (self : nrec) (packet_src enr_endpoint : N)
+           (shuf : N -> list nrec -> list nrec) (dists : list N) : res (list nrec) :=
+  handle_find_nodes_st init_done tab self (talk_source packet_src enr_endpoint) shuf dists.
+
 (* len(talkRespBytes) = 1 (NODES) + 1 (total) + 4 (offset) + sum (4 + len enr) *)
 Definition nodes_reply_len (enrs : list nrec) : N := 1 + 1 + 4 + enrs_size enrs.
 
